@@ -248,7 +248,7 @@ func (e *Encoder) havocRange(st *State, s Val, elem types.Type) error {
 		// frame: every location whose element-root is not inside the slice range is unchanged
 		c.declareElemRoot()
 		off := fmt.Sprintf("(soff %s)", s.S)
-		inr := fmt.Sprintf("(and ((_ is lelem) (elemroot p!h)) (= (ebase (elemroot p!h)) (sbase %s)) %s %s)", s.S,
+		inr := fmt.Sprintf("(and (is_lelem (elemroot p!h)) (= (ebase (elemroot p!h)) (sbase %s)) %s %s)", s.S,
 			c.cmp("<=", intT, off, "(eidx (elemroot p!h))"), c.cmp("<", intT, "(eidx (elemroot p!h))", c.binopIdx("+", off, fmt.Sprintf("(scap %s)", s.S))))
 		c.assume(fmt.Sprintf("(forall ((p!h Loc)) (! (=> (not %s) (= (select %s p!h) (select %s p!h))) :pattern ((select %s p!h))))", inr, n, cur, n))
 		st.mem[key] = n
@@ -398,7 +398,7 @@ func (e *Encoder) appendBuiltin(cm *ssa.CallCommon, args []Val, st *State, pc st
 	M2 := c.fresh("M_" + key)
 	c.declare(M2, srt)
 	start := c.define("start", c.idx(), c.binopIdx("+", soff, slen))
-	inr := and(fmt.Sprintf("((_ is lelem) p!a)"), fmt.Sprintf("(= (ebase p!a) %s)", sbase), c.cmp("<=", intT, start, "(eidx p!a)"), c.cmp("<", intT, "(eidx p!a)", c.binopIdx("+", start, tlen)))
+	inr := and(fmt.Sprintf("(is_lelem p!a)"), fmt.Sprintf("(= (ebase p!a) %s)", sbase), c.cmp("<=", intT, start, "(eidx p!a)"), c.cmp("<", intT, "(eidx p!a)", c.binopIdx("+", start, tlen)))
 	c.assume(implies(and(pc, inplace), fmt.Sprintf("(forall ((p!a Loc)) (! (= (select %s p!a) (ite %s %s (select %s p!a))) :pattern ((select %s p!a))))",
 		M2, inr, tat(c.binopIdx("-", "(eidx p!a)", start)), M, M2)))
 	c.assume(implies(and(pc, not(inplace)), fmt.Sprintf("(= %s %s)", M2, M)))
@@ -445,7 +445,7 @@ func (e *Encoder) copyBuiltin(cm *ssa.CallCommon, args []Val, st *State, pc stri
 	M2 := c.fresh("M_" + key)
 	c.declare(M2, srt)
 	doff := fmt.Sprintf("(soff %s)", d.S)
-	inr := and("((_ is lelem) p!c)", fmt.Sprintf("(= (ebase p!c) (sbase %s))", d.S), c.cmp("<=", intT, doff, "(eidx p!c)"), c.cmp("<", intT, "(eidx p!c)", c.binopIdx("+", doff, n)))
+	inr := and("(is_lelem p!c)", fmt.Sprintf("(= (ebase p!c) (sbase %s))", d.S), c.cmp("<=", intT, doff, "(eidx p!c)"), c.cmp("<", intT, "(eidx p!c)", c.binopIdx("+", doff, n)))
 	c.assume(implies(pc, fmt.Sprintf("(forall ((p!c Loc)) (! (= (select %s p!c) (ite %s %s (select %s p!c))) :pattern ((select %s p!c))))",
 		M2, inr, sat(c.binopIdx("-", "(eidx p!c)", doff)), M, M2)))
 	st.mem[key] = M2
